@@ -11,7 +11,7 @@ MANIFEST = {
                   'UnlockHere/UnlockHereShared/guard destruction, the solver shows for every well-nested schedule of two coroutine starts with a third coroutine started before or after '
                   '(preemption at any atomic / spinlock operation and inside critical sections): an exclusive holder never overlaps any other holder, shared holders overlap only with each other, '
                   'Try* succeed only when compatible, every request is granted exactly once (nobody stays parked), the mutex is free at quiescence and frames are released.',
-    'level_note': 'Spinlock is a model (harness/model_include); 2 racing + 1 sequenced coroutines, 1 round; well-nested schedules. Trusted: clang -O1 IR after CoroSplit, ir2c, rt, cbmc.',
+    'level_note': 'Spinlock is a model (harness/model_include); 2 racing + 1 sequenced coroutines, 1 round; well-nested schedules. Trusted: clang -O1 IR after CoroSplit, ir2c, rt, cbmc. The C04 happens-before ghost runs inside the coroutine-level cubes: what one critical section wrote must be visible (ordered) in the next.',
     'technique': 'bounded model checking of real coroutine + mutex code with solver-decided preemption cubes',
     'design_ref': 'DESIGN.md 4 C15',
 }
